@@ -165,6 +165,9 @@ class LinDom(alg.Alg):
                 if isinstance(p, Ptr) and p.base != 'null':
                     e = Effect(kind, name, p.base, p.off, args[si], ins)
                     e.cap = self.cap_now(interp, st)
+                    # a block that is filled with zero bytes (terminator rules read this)
+                    e.zero = name == 'a_zero' or (name == 'a_fill' and len(args) > 2 and self.concrete(args[2]) == 0) or \
+                        ((name == 'memset' or name.startswith('llvm.memset')) and len(args) > 1 and self.concrete(args[1]) == 0)
                     st.calls.append(e)
             if name in ('memcmp',):
                 return self.fresh('cmp')
